@@ -3,9 +3,11 @@ import GoLevel.Gen.Consts
 
 The resizable hash table (`mHead`/`mBucket`, freeze/split/merge) is abstracted to a list of nodes with atomic
 per-key operations: `mBucket.get` and `mBucket.delete` run under the bucket lock and retry on frozen buckets,
-so each is one atomic step on the (ns,key) they address.  A node that `mBucket.delete` removes from its bucket
-is erased from the model (`Proofs/Cache*.lean` shows such a node is never on the LRU list, so later stale
-`lru.Evict(n)` calls on it are no-ops, which is how `levict` treats an absent id).
+so each is one atomic step on the (ns,key) they address (the table itself is modelled in `Model/CacheTable.lean`,
+which `Props/C17.lean` shows to be a finite map).  A node that `mBucket.delete` removes from its bucket is erased
+from `nodes` and kept in the ghost list `dead` (`Proofs/Cache*.lean` shows such a node is never on the LRU list,
+so later stale `lru.Evict(n)` calls on it are no-ops, which is how `levict` treats an absent id; a stale
+`Node.callFinalizer(n)` — possible only when `Close` races with `unRefExternal` — runs its delFuncs again).
 
 Every *instruction* (`Instr`) is one critical section / atomic operation of the Go code; an API call is compiled
 to instructions (`startCall`), executing an instruction may push follow-up instructions in front of the
@@ -15,7 +17,9 @@ completion — used by the driver) and by the interleaving system (`sysStep`, an
 Abstractions (stated, not hidden):
 * `setFunc`, value `Release()` and `delFunc`s are opaque: they do not re-enter the cache.  `setFunc` runs under
   `n.mu`, so "lock n.mu; look at n.value; maybe run setFunc; unlock" is one step (`setv`).
-* `Node.callFinalizer` (which the code runs without any lock) is one step (`fin`).
+* `Node.callFinalizer` takes the value and the delFuncs out of the node under `n.mu` (repaired code: "make
+  Node.callFinalizer safe against a concurrent second call") and runs them after the unlock; it is one step
+  (`fin`) whose events are emitted at that critical section.
 * `Cache.Close` enumerates the detached table with `enumerateNodesWithCB`, which hands the *cumulative* node
   list to the callback once per bucket, i.e. repeats zero/Evict/callFinalizer on earlier nodes; the repeats are
   idempotent, the model performs them once per node.
@@ -55,7 +59,12 @@ inductive SetFunc
   deriving DecidableEq, Repr, Inhabited
 
 /-- The shared memory of a `cache.Cache` with an `lru` cacher.  `handles` (ghost) is the multiset of node ids
-of the `*Handle`s currently owned by callers; `forced` (ghost) records that `Close(true)` took the lock. -/
+of the `*Handle`s currently owned by callers; `forced` (ghost) records that `Close(true)` took the lock;
+`dropped` (ghost) lists the delFuncs handed to a `Delete` that found the cache closed (`Cache.Delete` then returns
+`false` without ever calling them); `dead` (ghost) holds the nodes that `mBucket.delete` removed from their
+bucket — the Go objects live on while some thread still has a pointer to them: `value` is nil, `delFuncs` is what
+the code leaves there (it runs them but does not clear the slice); `stale` (ghost) records that a
+`Node.callFinalizer` reached such a removed node. -/
 structure Shared where
   nodes : List Node
   closed : Bool
@@ -69,6 +78,9 @@ structure Shared where
   handles : List Nat
   bug : Bool
   forced : Bool
+  dropped : List Nat
+  dead : List Node
+  stale : Bool
   deriving DecidableEq, Repr, Inhabited
 
 inductive Call
@@ -185,7 +197,8 @@ def execEnter (s : Shared) : Call → Res
     -- the harness numbers its delFuncs in call order; so does the model
     let d := if withDel then some s.nextDel else none
     let s := if withDel then { s with nextDel := s.nextDel + 1 } else s
-    if s.closed then some (s, [], [.retBool false])
+    -- `if r.closed { return false }`: the delFunc is never called
+    if s.closed then some ({ s with dropped := d.toList ++ s.dropped }, [], [.retBool false])
     else some ({ s with rlock := s.rlock + 1 }, [.bget k (.del d), .runlock], [])
   | .evict k =>
     if s.closed then some (s, [], [.retBool false])
@@ -310,7 +323,8 @@ def execDelz (s : Shared) (k : Key) : Res :=
   | some n =>
     if n.ref = 0 then
       some ({ s with nodes := eraseId s.nodes n.id, statSize := s.statSize - n.size,
-                     statNodes := s.statNodes - 1 }, [], finEvents n false)
+                     statNodes := s.statNodes - 1, dead := { n with value := none } :: s.dead }, [],
+            finEvents n false)
     else some (s, [], [])
 
 def execUnref (s : Shared) (id : Nat) (ext : Bool) : Res :=
@@ -320,11 +334,19 @@ def execUnref (s : Shared) (id : Nat) (ext : Bool) : Res :=
     some ({ s with nodes := upd s.nodes id fun n => { n with ref := n.ref - 1 } },
       if n.ref - 1 = 0 then (if ext then [.extz id n.key] else [.delz n.key]) else [], [])
 
+/-- `Node.callFinalizer` through a stale pointer, to a node that `mBucket.delete` removed meanwhile: its value is
+nil already, but its `delFuncs` — which `mBucket.delete` ran and did not clear — run a second time. -/
+def execFinStale (s : Shared) (id : Nat) (forced : Bool) : Res :=
+  match findId s.dead id with
+  | none => some ({ s with bug := true }, [], [])
+  | some n =>
+    some ({ s with bug := true, stale := true,
+                   dead := upd s.dead id fun n => { n with delFuncs := [] } }, [],
+      n.delFuncs.map fun d => Ev.delf d (some n.id) forced)
+
 def execFin (s : Shared) (id : Nat) (forced : Bool) : Res :=
   match findId s.nodes id with
-  -- a stale pointer to a node that `mBucket.delete` removed meanwhile: the code would run that node's
-  -- delFuncs a second time (`mBucket.delete` does not clear them); the model only flags it
-  | none => some ({ s with bug := true }, [], [])
+  | none => execFinStale s id forced
   | some n =>
     some ({ s with nodes := upd s.nodes id fun n => { n with value := none, delFuncs := [] } }, [],
       finEvents n forced)
@@ -377,7 +399,7 @@ def startCall : Call → List Instr
 def Shared.new (capacity : Nat) : Shared :=
   { nodes := [], closed := false, rlock := 0, lru := { capacity := capacity, used := 0, recent := [] },
     nextId := 0, nextVal := 0, nextDel := 0, statNodes := 0, statSize := 0, handles := [], bug := false,
-    forced := false }
+    forced := false, dropped := [], dead := [], stale := false }
 
 /-! ## Sequential API: one thread, each call run to completion -/
 
